@@ -301,6 +301,37 @@ class SeekTellUnit(Unit):
         return ex
 
     def replay(self, failure):
+        """native: seek(tell()) at every reader position of a small log (start / middle / end of a rolled file, end of the file still being written), the writer goes on afterwards,
+        the reader must deliver exactly the records not yet delivered; then the random history search"""
+        import logging, shutil, tempfile
+        logging.disable(logging.CRITICAL)
+        from openfilter.filter_runtime.rolllog import RollLog
+        obs = []
+        for file_size, n_first, n_read in ((10 ** 6, 2, 2), (10 ** 6, 3, 1), (1, 3, 3), (1, 3, 1), (12, 4, 4), (12, 4, 2)):
+            for same_object in (False, True):
+                d = tempfile.mkdtemp(prefix='verif_rl_')
+                try:
+                    t = 1700000000.0
+                    w = RollLog(d, mode='txt', file_size=file_size, total_size=10 ** 9)
+                    for i in range(n_first):
+                        w.write(f'rec{i}', timestamp=t + i)
+                    r = w if same_object else RollLog(d, mode='txt', rdonly=True, autorefresh=True)
+                    r.seek(('start', 0))
+                    got = [r.read() for _ in range(n_read)]
+                    r.seek(r.tell())
+                    for i in range(n_first, n_first + 3):
+                        w.write(f'rec{i}', timestamp=t + i)
+                    for _ in range(10):
+                        x = r.read()
+                        if x is not None:
+                            got.append(x)
+                    want = [f'rec{i}' for i in range(n_first + 3)]
+                    if got != want:
+                        obs.append(f'file_size={file_size}, {n_first} records written, {n_read} read, seek(tell()), 3 more written ({"same object" if same_object else "separate reader"}): delivered {got}')
+                finally:
+                    shutil.rmtree(d, ignore_errors=True)
+        if obs:
+            return {'confirmed': True, 'inputs': 'write, read, seek(tell()), write on, read', 'observed': obs[:4], 'required': 'every record exactly once, in writing order'}
         from replay_drivers import rolllog_history
         return rolllog_history.search(200, 1)
 
